@@ -908,9 +908,13 @@ def check_json_family(run, prop, replay=None):
     proof_ok = run.proof_side()
     cases, impl, model, meta = run.run_vh(["-cases", replay] if replay else None)
     heads = {}
+    jo_lines = {}
     for c in cases:
         if c[:2] in ("D ", "J "):
             heads.setdefault(c.split(" ", 2)[1], []).append(c)
+        elif c[:3] == "JO ":
+            f = c.split(" ", 3)
+            jo_lines.setdefault((f[1], f[2]), []).append(c)
     nbad = fam_report_bad_packages(run, meta)
     n_eval = 0
     corr, propm = [], []
@@ -960,7 +964,7 @@ def check_json_family(run, prop, replay=None):
             n_eval += 1
             ikv, mkv = parse_kv(im), parse_kv(mo)
             f = c.split(" ")
-            ctx = [l for l in heads.get(f[1], []) if l.startswith("D ")] + [l for l in cases if l.startswith("JO %s %s " % (f[1], f[2]))]
+            ctx = [l for l in heads.get(f[1], []) if l.startswith("D ")] + jo_lines.get((f[1], f[2]), [])
             if mo.startswith("ERROR") or "model" not in mkv:
                 corr.append((i, c, im, mo, ctx, "model failed"))
                 continue
